@@ -212,6 +212,24 @@ def run_spec(p, res):
                             v(clause, f"sigma2={s2} ({form}): received {y:.4f} bit {j}: LLR={lj:.6g}, expected c*(d1^2-d0^2)/sigma^2 = {base:.4g}*({d1:.5g}-{d0:.5g})/{s2} = {want:.6g}", {"y": [y.real, y.imag], "s2": s2, "bit": j})
             if nbad:
                 res.bump("wrong_llrs", nbad)
+    # alternating schemes: in training mode the demodulator carries the rotation state from call to call; after a block with an odd number
+    # of symbols the next block is decided against the continued alternation (hard decisions nearest on that constellation)
+    if kind == "alternating":
+        try:
+            d2 = MC.build(spec)[1]
+            d2.train()
+            d2.reset_state()
+            d2(torch.tensor([[tables[0][0], tables[1][1], tables[0][2]]], dtype=torch.complex64))       # 3 symbols: state now 'rotated'
+            blk = [tables[1][i % 4] * (1.0 + 0.05 * i) + 0.03 if i % 2 == 0 else tables[0][i % 4] * (1.0 - 0.04 * i) - 0.02j for i in range(6)]
+            out = d2(torch.tensor([blk], dtype=torch.complex64)).reshape(-1, b).tolist()
+            res.ev(6, nontrivial=6, transitions=2)
+            for i, (y, got) in enumerate(zip(blk, out)):
+                ok = MC.nearest_labels(y, tables[(i + 1) % 2], lab)
+                if tuple(int(round(x)) for x in got) not in ok:
+                    v("nearest", f"training mode, second block after a 3-symbol block: symbol {i} {y:.3f} decided {got}, nearest on the continued alternation {sorted(ok)}", {"stream": True})
+                    break
+        except Exception as e:  # noqa: BLE001
+            v("raises", f"stream continuation: {type(e).__name__}: {str(e)[:160]}")
     # alternating schemes also accept an un-batched symbol vector for SOFT output (shape (N, 2)): same LLRs as the batched route
     if kind == "alternating" and base is not None:
         YY = Ys + Ys[:1] if len(Ys) % 2 else Ys
